@@ -95,6 +95,10 @@ pub struct World {
     /// Names appended to the node lists of get_peers replies only (never to find_node replies): nodes
     /// a querier first hears of in the middle of a search.
     pub search_only_names: Vec<(Id, SocketAddr)>,
+    /// Probability (per get_peers reply) that the token handed out is very long: padded to
+    /// 900..1440 bytes, with the node list cut so that the reply itself still fits 1500 bytes.
+    /// BEP5 puts no bound on the token length; whoever received it has to send it back.
+    pub long_tokens: f64,
 }
 
 /// Adversarial node-list entries around `target` (see `World::hostile_lists`); `salt` varies them.
@@ -216,6 +220,7 @@ impl World {
             extra_names: Vec::new(),
             hostile_lists: 0.0,
             search_only_names: Vec::new(),
+            long_tokens: 0.0,
         }
     }
 
@@ -326,10 +331,23 @@ impl World {
                         } else {
                             reply.nodes = nodes;
                         }
-                        let token = token_for(seq);
+                        let mut token = token_for(seq);
+                        if self.long_tokens > 0.0 && ((seq.wrapping_mul(40503) >> 4) % 1000) as f64 / 1000.0 < self.long_tokens {
+                            let len = 900 + (seq.wrapping_mul(7919) % 541) as usize;
+                            while token.len() < len {
+                                token.push(b'T');
+                            }
+                            // keep the reply itself within one datagram
+                            let room = 1500usize.saturating_sub(len + 120 + msg.t.len());
+                            let per = if v6 { 38 } else { 26 };
+                            reply.nodes.truncate(room / per);
+                            reply.nodes6.truncate(room / per);
+                            served.nodes.truncate(room / per);
+                        }
                         reply.token = Some(token.clone());
                         served.token = Some(token);
-                        for j in 0..node.peers {
+                        let n_values = if reply.token.as_ref().map(|t| t.len()).unwrap_or(0) > 800 { 0 } else { node.peers };
+                        for j in 0..n_values {
                             let value = if self.stable_values {
                                 tagged_value(0x80_0000 | ni as u32, j, v6)
                             } else {
